@@ -56,7 +56,7 @@ def fXsys : Flow := { plain "q0" "a.com/x" (hostACom ++ [seg "x"]) with kind := 
 def fXq : Flow := { plain "f5" "a.com/x" (hostACom ++ [seg "x"]) with query := [("k", none)] }
 
 def req (m : String) (parts : List Part) (q : List (String × String) := []) : Txn :=
-  ⟨false, m, parts, [], q, 0⟩
+  ⟨false, m, parts, [], q, 0, true⟩
 
 def urlX : List Part := hostACom ++ [seg "x"]
 def urlXY : List Part := hostACom ++ [seg "x", seg "y"]
@@ -227,6 +227,29 @@ example :
     parsePair "=v" = some ("", "v") ∧ parsePair "a+b=c+d" = some ("a b", "c d") ∧
     parsePair "%6b=%76" = some ("k", "v") ∧ parsePair "k=v=w" = some ("k", "v=w") ∧
     parsePieces ["q=books", "ref=100%zz", "%zz=1", "k=v"] = [("q", "books"), ("k", "v")] := by decide
+
+/-! ### early responses -/
+
+/-- The response walk of an EARLY response (a processor answered the request: the filter tree is asked again
+    with the stream switched to the response type and no response object) never selects a flow that carries a
+    status-code constraint — for every tree and transaction.  (S, C, O above cover `t.early` like any other
+    transaction; `statusOk` of the Spec reads a missing status as "no constraint is met".) -/
+theorem early_response_selects_no_status_flow (ft : FTree) (t : Txn) (k : Kind) (f : Flow)
+    (h : f ∈ selected ft t.early k) : f.statuses = [] := by
+  simp only [selected, List.mem_flatMap, List.mem_filter] at h
+  obtain ⟨_, _, _, hv⟩ := h
+  simp only [flowValid, isStatusCodeQualified, Txn.early, Bool.and_eq_true] at hv
+  have hs := hv.1.1.2
+  cases hst : f.statuses with
+  | nil => rfl
+  | cons a l => simp [hst] at hs
+
+/-- non-vacuity: a status-constrained sibling is left out of the early-response walk, runs on a real 500. -/
+example :
+    let f500 : Flow := { plain "f1" "a.com/x" (hostACom ++ [seg "x"]) with statuses := [500] }
+    answer [fX, f500] (req "GET" urlX).early = some ⟨true, ["f0"], [], []⟩ ∧
+    answer [fX, f500] { (req "GET" urlX) with isResp := true, status := 500 } = some ⟨true, ["f0", "f1"], [], []⟩ ∧
+    verdict [fX, f500] (req "GET" urlX).early = some (true, true, true) := by decide
 
 /-! ### quota system flows: is folding by `Filter.ToComparable` sound? -/
 
